@@ -132,6 +132,60 @@ theorem sound_aux (allowed : List Nat) :
           simp only [hwflag, Bool.not_true, Bool.false_or] at hc
           exact buf_ok_of_check ha arg.1 hc i (callerIdx_eq_some.mp hi)
 
+/-! ### what a body hands back: the abstract environment describes the final environment -/
+
+theorem absOK_step (a : Abs) (st : State) (h : AbsOK a st.env) (s : Stmt) : AbsOK (absStep a s) (step st s).env := by
+  cases s with
+  | copy d src dt => exact absOK_upd_fresh h d _ _
+  | alloc d dt => exact absOK_upd_fresh h d _ _
+  | retype x dt =>
+    intro y
+    by_cases hy : y = x
+    · have := h x
+      simpa [absStep, step, upd, hy] using this
+    · have := h y
+      simpa [absStep, step, upd, hy] using this
+  | pywrite x => exact h
+  | kernel name args => exact h
+  | view d src c =>
+    by_cases hc : c.sat (st.env src).kind = true
+    · have hst : (step st (.view d src c)).env = upd st.env d (st.env src) := by simp [step, hc]
+      rw [hst]; exact absOK_upd_view h d src
+    · have hst : (step st (.view d src c)).env =
+          upd st.env d ⟨.fresh st.next, freshKind (c.dt.getD (st.env src).kind.dt)⟩ := by simp [step, hc]
+      rw [hst]
+      intro x
+      by_cases hx : x = d
+      · cases ha : a src <;> simp [absStep, absUpd, upd, hx, Buf.isFresh, ha]
+      · have := h x
+        simpa [absStep, absUpd, upd, hx] using this
+
+theorem absOK_run : ∀ (p : Program) (a : Abs) (st : State), AbsOK a st.env → AbsOK (absRun a p) (runFrom st p).env := by
+  intro p
+  induction p with
+  | nil => intro a st h; exact h
+  | cons s p ih => intro a st h; exact ih (absStep a s) (step st s) (absOK_step a st h s)
+
+/-! ### dtype of the caller's objects -/
+
+theorem step_retyped_of_not_retype (st : State) (s : Stmt) (h : (match s with | .retype _ _ => false | _ => true) = true) :
+    (step st s).retyped = st.retyped := by
+  cases s with
+  | retype x dt => simp at h
+  | view d src c => simp only [step]; split <;> rfl
+  | _ => rfl
+
+theorem runFrom_retyped_of_noRetype : ∀ (p : Program) (st : State), noRetype p = true →
+    (runFrom st p).retyped = st.retyped := by
+  intro p
+  induction p with
+  | nil => intro st _; rfl
+  | cons s p ih =>
+    intro st h
+    simp only [noRetype, List.all_cons, Bool.and_eq_true] at h
+    show (runFrom (step st s) p).retyped = st.retyped
+    rw [ih (step st s) h.2, step_retyped_of_not_retype st s h.1]
+
 /-! ### memory semantics: frame property -/
 
 theorem mstep_st {α} (sem : Sem α) (ms : MState α) (s : Stmt) : (mstep sem ms s).st = step ms.st s := by
